@@ -353,6 +353,19 @@ func shortCauseIn(u *FuncUnit, e ast.Expr) string {
 	if c := visit(e, 0); c != "" {
 		return c
 	}
+	// &ExecuteResponse{Status: <a parameter of this function>}: the operator-supplied status,
+	// whatever the parameter is called
+	if ue, ok := ast.Unparen(e).(*ast.UnaryExpr); ok {
+		if lit, ok := ue.X.(*ast.CompositeLit); ok && len(lit.Elts) == 1 {
+			if kv, ok := lit.Elts[0].(*ast.KeyValueExpr); ok && exprStr(kv.Key) == "Status" {
+				if id, ok := ast.Unparen(kv.Value).(*ast.Ident); ok {
+					if v, ok := info.Uses[id].(*types.Var); ok && isParamOf(u, v) {
+						return "operator-status"
+					}
+				}
+			}
+		}
+	}
 	return first
 }
 
